@@ -452,6 +452,11 @@ src_stm
         {
             cmd := strings.TrimSpace($<intern>3.unquote($3))
             stagecodeParts := strings.Fields(cmd)
+            if len(stagecodeParts) == 0 {
+                mmlex.(*mmLexInfo).fail($<loc>3, $3,
+                    "stage source command is empty")
+                return 1
+            }
             $$ = &SrcParam{
                 Node: NewAstNode($<loc>1),
                 Lang: StageLanguage($<intern>2.Get($2)),
